@@ -174,9 +174,14 @@ func calculateExecutionType(
 
 	case base.BLOCK_RESULT_ARRAY:
 		blockT := m.parser.GetLastEvaluatedT()
-		blockResultT := blockT.GetVal().(*base.T)
-
 		arrayT := base.MakeAnyArray()
+
+		// no block result (the call was written without a block)
+		blockResultT, ok := blockT.GetVal().(*base.T)
+		if !ok || blockResultT == nil {
+			return arrayT
+		}
+
 		arrayT.AppendArrayVariant(*blockResultT)
 
 		return arrayT
